@@ -65,7 +65,10 @@ from lib import coq_string
 
 COQ_TARGETS = ["theories/Model/Core.vo", "theories/Model/CoreLate.vo", "theories/Proofs/CoreHash.vo",
                "theories/Proofs/CoreLate.vo", "theories/Model/RoutineAst.vo", "theories/Proofs/RoutineAst.vo",
-               "theories/Props/RoutineAst.vo", "theories/Props/CoreHash.vo"]
+               "theories/Props/RoutineAst.vo", "theories/Props/CoreHash.vo",
+               # the leaf routine classes (part 3)
+               "theories/Model/Serdes.vo", "theories/Model/RoutineLeafAst.vo", "theories/Proofs/RoutineLeafAst.vo",
+               "theories/Props/RoutineLeafAst.vo"]
 
 PROPS = [("Props/RoutineAst.v", [
     "RA_unm_step", "RA_mar_step",
@@ -987,6 +990,433 @@ def translate():
 
 
 # ----------------------------------------------------------------------------------
+# LEAF routine classes (Model/RoutineLeafAst.v): `__init__` / `__call__` bodies as small statement programs
+# ----------------------------------------------------------------------------------
+# Every concrete routine class that is not a composite one.  The body is translated into `lstmt` / `lexpr` of
+# Model/RoutineLeafAst.v: a closed fragment of Python (assignment to one name, if / elif / else, return, raise <Exc>(..),
+# `with contextlib.suppress(..)`, `for x in ..`, `super().__init__(t, context, var=var)`; expressions: names, dotted
+# globals, attribute reads, calls with positional / keyword / * / ** arguments, tuples, `[*x]`, `{**x}`, one comparison,
+# not / and / or / unary +, conditional expression, None / True / False).  Normalised away (harmless): docstrings,
+# comments, annotations (`x: T = e` is `x = e`), `tp.cast(T, e)` (identity at runtime), the NAMES of locals and of the input
+# parameter (locals are numbered by first assignment), the message of a raised exception, `type(e)` for `e.__class__`
+# (the same object unless a class overrides `__class__`, which no value of the models does).  Anything else: Closed, with
+# class and line.
+
+LEAF_X_FILES = [
+    ("RoutineLeafXU.v", ["RLX_unm_agree", "RLX_unm_first", "RLX_unm_entry", "RLX_unm_steps"]),
+    ("RoutineLeafXM.v", ["RLX_mar_agree", "RLX_mar_steps", "RLX_mar_not_identity"]),
+]
+LEAF_COQ_TARGETS = COQ_TARGETS[-4:]
+LEAF_PROPS = [("Props/RoutineLeafAst.v", [
+    "RL_first_model", "RL_entry", "RL_entry_src", "RL_steps_unm", "RL_steps_mar", "RL_first_of_steps",
+    "RL_leaf_eqb_sound", "RL_src_leaf", "RL_mar_not_identity", "RL_decode_first_iff", "RL_load_first_iff"])]
+
+_CMP = {ast.Is: "is", ast.IsNot: "is not", ast.In: "in", ast.NotIn: "not in", ast.Eq: "==", ast.NotEq: "!=",
+        ast.Lt: "<", ast.LtE: "<=", ast.Gt: ">", ast.GtE: ">="}
+
+
+class LeafBody:
+    """one function body -> lstmt term (nested tuples)"""
+
+    def __init__(self, fn: ast.FunctionDef, init: bool):
+        self.fn, self.init = fn, init
+        a = fn.args
+        pos = [x.arg for x in a.posonlyargs + a.args]
+        if a.vararg or a.kwarg or a.posonlyargs:
+            closed(fn, "parameters outside the fragment")
+        if init:
+            if pos != ["self", "t", "context"] or [x.arg for x in a.kwonlyargs] != ["var"]:
+                closed(fn, "__init__ parameters are not (self, t, context, *, var)")
+            self.selfname, self.val = "self", None
+            self.globals_ok = {"t", "context", "var"}
+        else:
+            if len(pos) != 2 or a.kwonlyargs or a.defaults:
+                closed(fn, "__call__ parameters are not (self, val)")
+            self.selfname, self.val = pos
+        if fn.decorator_list:
+            closed(fn, "decorated method")
+        self.locals = []
+        for n in ast.walk(fn):
+            if isinstance(n, (ast.Lambda, ast.FunctionDef, ast.AsyncFunctionDef, ast.ClassDef, ast.ListComp, ast.SetComp,
+                              ast.DictComp, ast.GeneratorExp, ast.NamedExpr, ast.Global, ast.Nonlocal, ast.Await,
+                              ast.Yield, ast.YieldFrom, ast.Try, ast.While, ast.Delete, ast.Import, ast.ImportFrom)) and n is not fn:
+                closed(n, "construct outside the leaf fragment")
+        # locals, by first binding in source order
+        for n in self._binders(fn.body):
+            if n != self.val and n not in self.locals:
+                self.locals.append(n)
+        if self.selfname in self.locals:
+            closed(fn, "self is rebound")
+
+    def _binders(self, body):
+        for st in body:
+            if isinstance(st, ast.Assign):
+                for t in st.targets:
+                    if isinstance(t, ast.Name):
+                        yield t.id
+            elif isinstance(st, ast.AnnAssign) and isinstance(st.target, ast.Name):
+                yield st.target.id
+            elif isinstance(st, ast.For):
+                if isinstance(st.target, ast.Name):
+                    yield st.target.id
+                yield from self._binders(st.body)
+            elif isinstance(st, ast.If):
+                yield from self._binders(st.body)
+                yield from self._binders(st.orelse)
+            elif isinstance(st, ast.With):
+                yield from self._binders(st.body)
+
+    # -- expressions
+    def name(self, e):
+        if e.id == self.val:
+            return ("EVal",)
+        if e.id in self.locals:
+            return ("ELoc", self.locals.index(e.id))
+        return ("EName", e.id)
+
+    def args(self, call):
+        items = []
+        for a in call.args:
+            items.append(("pos", ("EStar", self.ev(a.value)) if isinstance(a, ast.Starred) else self.ev(a)))
+        for k in call.keywords:
+            items.append(("kw", k.arg if k.arg is not None else "**", self.ev(k.value)))
+        out = ("ENil",)
+        for it in reversed(items):
+            out = ("ECons", it[1], out) if it[0] == "pos" else ("EKw", it[1], it[2], out)
+        return out
+
+    def seq(self, elts):
+        out = ("ENil",)
+        for x in reversed(elts):
+            out = ("ECons", ("EStar", self.ev(x.value)) if isinstance(x, ast.Starred) else self.ev(x), out)
+        return out
+
+    def ev(self, e):
+        if isinstance(e, ast.Name):
+            return self.name(e)
+        if isinstance(e, ast.Constant):
+            if e.value is None:
+                return ("ENone",)
+            if e.value is True or e.value is False:
+                return ("EBool", "true" if e.value else "false")
+            closed(e, "constant outside the leaf fragment")
+        if isinstance(e, ast.Attribute):
+            v = self.ev(e.value)
+            if v[0] == "EName":
+                return ("EName", v[1] + "." + e.attr)
+            return ("EAttr", v, e.attr)
+        if isinstance(e, ast.Call):
+            f = self.ev(e.func)
+            if f == ("EName", "tp.cast") or f == ("EName", "typing.cast"):
+                if len(e.args) != 2 or e.keywords:
+                    closed(e, "tp.cast with other than two arguments")
+                return self.ev(e.args[1])
+            if f == ("EName", "type") and len(e.args) == 1 and not e.keywords and not isinstance(e.args[0], ast.Starred):
+                return ("EAttr", self.ev(e.args[0]), "__class__")
+            return ("ECall", f, self.args(e))
+        if isinstance(e, ast.Tuple):
+            return ("ETuple", self.seq(e.elts))
+        if isinstance(e, ast.List):
+            return ("EList", self.seq(e.elts))
+        if isinstance(e, ast.Dict):
+            out = ("ENil",)
+            for k, v in reversed(list(zip(e.keys, e.values))):
+                if k is not None:
+                    closed(e, "dict display with keys")
+                out = ("EKw", "**", self.ev(v), out)
+            return ("EDict", out)
+        if isinstance(e, ast.Compare):
+            if len(e.ops) != 1:
+                closed(e, "chained comparison")
+            return ("ECmp", _CMP[type(e.ops[0])], self.ev(e.left), self.ev(e.comparators[0]))
+        if isinstance(e, ast.BoolOp):
+            vals = [self.ev(x) for x in e.values]
+            out = vals[-1]
+            for x in reversed(vals[:-1]):
+                out = ("EAnd" if isinstance(e.op, ast.And) else "EOr", x, out)
+            return out
+        if isinstance(e, ast.UnaryOp) and isinstance(e.op, ast.Not):
+            return ("ENot", self.ev(e.operand))
+        if isinstance(e, ast.UnaryOp) and isinstance(e.op, ast.UAdd):
+            return ("EPos", self.ev(e.operand))
+        if isinstance(e, ast.IfExp):
+            return ("EIfExp", self.ev(e.test), self.ev(e.body), self.ev(e.orelse))
+        closed(e, "expression outside the leaf fragment")
+
+    # -- statements
+    def target(self, t):
+        if isinstance(t, ast.Name):
+            v = self.name(t)
+            if v[0] == "EName":
+                closed(t, "assignment to a non-local name")
+            return v
+        if self.init and _is_attr(t, self.selfname):
+            return ("EName", f"self.{t.attr}")
+        closed(t, "assignment target outside the leaf fragment")
+
+    def block(self, body):
+        out = ("SSkip",)
+        for st in reversed(body):
+            out = ("SSeq", self.stmt(st), out)
+        return out
+
+    def stmt(self, st):
+        if isinstance(st, ast.Assign):
+            if len(st.targets) != 1:
+                closed(st, "multiple assignment targets")
+            return ("SAssign", self.target(st.targets[0]), self.ev(st.value))
+        if isinstance(st, ast.AnnAssign):
+            if st.value is None:
+                closed(st, "annotation without a value")
+            return ("SAssign", self.target(st.target), self.ev(st.value))
+        if isinstance(st, ast.If):
+            return ("SIf", self.ev(st.test), self.block(st.body), self.block(st.orelse))
+        if isinstance(st, ast.Return):
+            return ("SReturn", self.ev(st.value) if st.value is not None else ("ENone",))
+        if isinstance(st, ast.Raise):
+            if st.cause is not None or st.exc is None:
+                closed(st, "raise outside the leaf fragment")
+            exc = st.exc.func if isinstance(st.exc, ast.Call) else st.exc
+            if not isinstance(exc, ast.Name):
+                closed(st, "raised exception is not a plain name")
+            return ("SRaise", exc.id)
+        if isinstance(st, ast.With):
+            if len(st.items) != 1 or st.items[0].optional_vars is not None:
+                closed(st, "with outside the leaf fragment")
+            c = st.items[0].context_expr
+            if not (isinstance(c, ast.Call) and _src(c.func) == "contextlib.suppress" and not c.keywords):
+                closed(st, "with is not contextlib.suppress(..)")
+            return ("SSuppress", self.seq(c.args), self.block(st.body))
+        if isinstance(st, ast.For):
+            if st.orelse or not isinstance(st.target, ast.Name):
+                closed(st, "for outside the leaf fragment")
+            return ("SFor", self.locals.index(st.target.id), self.ev(st.iter), self.block(st.body))
+        if isinstance(st, ast.Expr) and self.init and _flat_super(st.value):
+            return ("SSuperInit",)
+        if isinstance(st, ast.Pass):
+            return ("SSkip",)
+        closed(st, "statement outside the leaf fragment")
+
+    def run(self):
+        return self.block(_strip_doc(self.fn.body))
+
+
+def _flat_super(e):
+    """super().__init__(t, context, var=var), positional or by keyword"""
+    if not (isinstance(e, ast.Call) and isinstance(e.func, ast.Attribute) and e.func.attr == "__init__"
+            and isinstance(e.func.value, ast.Call) and _is_name(e.func.value.func, "super")
+            and not e.func.value.args and not e.func.value.keywords):
+        return False
+    got = {}
+    for name, a in zip(("t", "context"), e.args):
+        got[name] = a
+    if len(e.args) > 2:
+        return False
+    for k in e.keywords:
+        if k.arg is None or k.arg in got:
+            return False
+        got[k.arg] = k.value
+    return set(got) == {"t", "context", "var"} and all(_is_name(v, k) for k, v in got.items())
+
+
+def coq_leaf_term(t):
+    head = t[0]
+    if len(t) == 1:
+        return head
+    parts = []
+    for x in t[1:]:
+        if isinstance(x, tuple):
+            s = coq_leaf_term(x)
+            parts.append(s if len(x) == 1 else f"({s})")
+        elif isinstance(x, int):
+            parts.append(str(x))
+        elif head == "EBool":
+            parts.append(x)
+        else:
+            parts.append(coq_string(x))
+    return head + " " + " ".join(parts)
+
+
+def translate_leaf_class(cls: ast.ClassDef, base: str, classes: dict):
+    """-> (base class name, init term, call term, lines)"""
+    if cls.decorator_list or cls.keywords:
+        closed(cls, "decorated class / class keywords")
+    parents = []
+    for b in cls.bases:
+        txt = _src(b)
+        if txt.startswith("tp.Generic["):
+            continue
+        root = b.value if isinstance(b, ast.Subscript) else b
+        if not isinstance(root, ast.Name) or root.id not in classes:
+            closed(cls, f"unexpected base {txt}")
+        parents.append(root.id)
+    if len(parents) != 1:
+        closed(cls, f"not exactly one routine base class: {parents}")
+    ms = _class_methods(cls)
+    extra = set(ms) - {"__init__", "__call__"}
+    if extra:
+        closed(cls, f"methods outside the fragment: {sorted(extra)}")
+    for st in cls.body:
+        ok = (isinstance(st, (ast.FunctionDef, ast.AnnAssign)) or
+              (isinstance(st, ast.Expr) and isinstance(st.value, ast.Constant)) or
+              (isinstance(st, ast.Assign) and len(st.targets) == 1 and _is_name(st.targets[0], "__slots__")))
+        if isinstance(st, ast.AnnAssign) and st.value is not None:
+            ok = False
+        if not ok:
+            closed(st, "class-body statement outside the leaf fragment")
+    if "__call__" not in ms:
+        closed(cls, "no __call__ of its own")
+    init = LeafBody(ms["__init__"], True).run() if "__init__" in ms else ("SSkip",)
+    call = LeafBody(ms["__call__"], False).run()
+    lines = {"__call__": ms["__call__"].lineno}
+    if "__init__" in ms:
+        lines["__init__"] = ms["__init__"].lineno
+    return parents[0], init, call, lines
+
+
+def translate_leaves_side(side):
+    """-> (rows [(class, base, init, call)], aliases [(alias, class)], problems)"""
+    import importlib
+    pkg, base, suffix = SIDES[side]
+    problems, rows, aliases = [], [], []
+    path = os.path.join(lib.REPO, "src", "typelib", pkg, "routines.py")
+    try:
+        tree = ast.parse(open(path).read(), filename=path)
+    except (OSError, SyntaxError) as e:
+        return [], [], [f"{pkg}/routines.py: {e}"]
+    classes = {st.name: st for st in tree.body if isinstance(st, ast.ClassDef)}
+    composite = {h + suffix for h in HEADS} | set(EXTRA[side])
+    lines = {}
+    for st in tree.body:
+        if isinstance(st, ast.ClassDef):
+            if st.name == base or st.name in composite:
+                continue
+            try:
+                b, init, call, ln = translate_leaf_class(st, base, classes)
+            except Closed as e:
+                problems.append(f"{st.name}: {e}")
+                continue
+            rows.append((st.name, b, init, call))
+            lines[st.name] = ln
+        elif isinstance(st, ast.Assign) and len(st.targets) == 1 and isinstance(st.targets[0], ast.Name):
+            v = st.value.value if isinstance(st.value, ast.Subscript) else st.value
+            if isinstance(v, ast.Name) and v.id in classes:
+                aliases.append((st.targets[0].id, v.id))
+        if isinstance(st, (ast.Assign, ast.AnnAssign, ast.AugAssign, ast.Expr, ast.For, ast.While, ast.If, ast.With, ast.Try)):
+            txt = _src(st)
+            for n in classes:
+                if re.search(r"\b%s\s*\.\s*\w+\s*=|setattr\(\s*%s\b" % (n, n), txt):
+                    problems.append(f"{pkg}: module-level statement patches {n}: `{txt[:80]}`")
+    try:
+        mod = importlib.import_module(f"typelib.{pkg}.routines")
+        if os.path.realpath(inspect.getsourcefile(mod)) != os.path.realpath(path):
+            problems.append(f"typelib.{pkg}.routines is not loaded from {path}")
+        live = _concrete_live(mod, getattr(mod, base))
+        unknown = sorted(set(live) - composite - {r[0] for r in rows})
+        if unknown:
+            problems.append(f"{pkg}: live concrete routine classes without a translated leaf program: {unknown}")
+        for name, ln in lines.items():
+            c = getattr(mod, name, None)
+            if c is None:
+                problems.append(f"{pkg}: {name} is not defined in the live module")
+                continue
+            for meth, line in ln.items():
+                code = getattr(c.__dict__.get(meth), "__code__", None)
+                if code is None or code.co_firstlineno != line or os.path.realpath(code.co_filename) != os.path.realpath(path):
+                    problems.append(f"{name}.{meth} of the live class is not the function parsed at line {line}")
+            for meth in ("__init__", "__call__"):
+                if meth not in ln and meth in c.__dict__:
+                    problems.append(f"{name}.{meth} exists in the live class but not in the parsed source")
+        for al, target in aliases:
+            got = getattr(mod, al, None)
+            if getattr(got, "__origin__", got) is not getattr(mod, target, None):
+                problems.append(f"{pkg}: live {al} is not an alias of {target}")
+    except Exception as e:  # noqa: BLE001
+        problems.append(f"{pkg}: cross-check of the leaf classes with the live module crashed: {e!r}")
+    return rows, aliases, problems
+
+
+def translate_leaves():
+    """-> (GenRoutineLeaves.v text, problems, summary)"""
+    text = ("(* generated on this run by harness/routasttie.py from the SOURCE (ast) of the LEAF routine classes of\n"
+            "   unmarshals/routines.py and marshals/routines.py of the tree under test *)\n"
+            "From Coq Require Import List String.\nImport ListNotations.\n"
+            "Require Import TL.Model.RoutineLeafAst.\nLocal Open Scope string_scope.\n")
+    problems, summary = [], {}
+    for side, tag in (("DU", "u"), ("DM", "m")):
+        rows, aliases, p = translate_leaves_side(side)
+        problems += p
+        body = ";\n    ".join(f"({coq_string(n)}, mkLeaf {coq_string(b)}\n      ({coq_leaf_term(i)})\n      ({coq_leaf_term(c)}))"
+                              for n, b, i, c in rows)
+        text += f"Definition leaves_{tag} : leaftable :=\n  [ {body} ].\n"
+        text += (f"Definition aliases_{tag} : list (string * string) :=\n  [ "
+                 + "; ".join(f"({coq_string(a)}, {coq_string(t)})" for a, t in aliases) + " ].\n")
+        summary[tag] = {n: {"base": b, "init": coq_leaf_term(i), "call": coq_leaf_term(c)} for n, b, i, c in rows}
+        summary[tag + "_aliases"] = dict(aliases)
+    return text, problems, summary
+
+
+def diagnose_leaves(run):
+    txt = ("From Coq Require Import List String.\nImport ListNotations.\n"
+           "Require Import TL.Model.RoutineLeafAst TLRun.GenRoutineLeaves.\n"
+           "Eval vm_compute in first_disagreements leaves_u.\n"
+           "Eval vm_compute in step_disagreements expected_u leaves_u.\n"
+           "Eval vm_compute in step_disagreements expected_m leaves_m.\n"
+           "Eval vm_compute in alias_disagreements expected_aliases_u aliases_u.\n"
+           "Eval vm_compute in alias_disagreements expected_aliases_m aliases_m.\n"
+           "Eval vm_compute in leaf_disagreements expected_u leaves_u.\n"
+           "Eval vm_compute in leaf_disagreements expected_m leaves_m.\n")
+    out = run.coq_eval("diagnose_routleaf.v", txt)
+    name = ("routast-leaf:leaf programs translated from the source are the expected ones (class by class, "
+            "RoutineLeafAst.expected_u / expected_m; aliases; first step = the head of Model/Serdes.v)")
+    if out is None or len(out) != 7:
+        run.oblige(name, False, "diagnosis did not compile: " + "; ".join(run.notes[-1:])[:300])
+        return False
+    msgs = []
+    labels = ["FIRST STEP of an unmarshaller (class, read off the translated body, Model/Serdes.v head)",
+              "unmarshal description (class, expected steps, translated steps)",
+              "marshal description (class, expected steps, translated steps)",
+              "unmarshal aliases", "marshal aliases",
+              "unmarshal programs (class, expected, translated)", "marshal programs (class, expected, translated)"]
+    for lab, o in zip(labels, out):
+        o = _flat(o)
+        o = re.sub(r"^=\s*", "", o)
+        o = re.sub(r"\s*:\s*list \(.*$", "", o).strip()
+        o = o.replace("%string", "")
+        if o in ("[]", "nil"):
+            continue
+        msgs.append(f"{lab}: {o[:700]}")
+    run.oblige(name, not msgs, " || ".join(msgs)[:4000])
+    return not msgs
+
+
+def leaf_obligations(run, props=True):
+    text, problems, summary = translate_leaves()
+    run.oblige("routast-leaf:translate leaf routine classes (ast of every non-composite routine class -> leaf program; "
+               "whole __init__ / __call__ bodies inside the fragment, live classes are the parsed ones, aliases are the "
+               "live aliases)", not problems, " || ".join(problems[:5]))
+    run.extra_cov["routine_leaf_programs"] = summary
+    ok = run.compile_dyn("GenRoutineLeaves.v", text=text)
+    if ok:
+        diagnose_leaves(run)
+        for name, thms in LEAF_X_FILES:
+            ok = run.compile_dyn(name, src=os.path.join(lib.DYN, "RoutineAst", name), theorems=thms, timeout=300) and ok
+    else:
+        for _, thms in LEAF_X_FILES:
+            for t in thms:
+                run.oblige(f"theorem:{t}", False, "generated leaf programs do not compile")
+    if props:
+        for rel, thms in LEAF_PROPS:
+            run.check_props(rel, thms)
+    run.assumptions.append(
+        "routine-leaf tie: harness/routasttie.py (ast -> lstmt, fail closed) is trusted to read the leaf routine classes' "
+        "bodies; RoutineLeafAst.first_of / steps are syntactic readings of the program (first serdes.decode / serdes.load "
+        "applied to the input, preceded only by isinstance tests of the raw input against non-text classes); the meaning "
+        "of the remaining statements stays tied by running both sides (leaftie, C04 / C14 streams)")
+    return ok and not problems
+
+
+# ----------------------------------------------------------------------------------
 # obligations
 # ----------------------------------------------------------------------------------
 
@@ -1022,7 +1452,8 @@ def diagnose(run, summary):
     return not msgs
 
 
-def obligations(run: lib.Run, props: bool = True) -> bool:
+def obligations(run: lib.Run, props: bool = True, leaves: bool = True) -> bool:
+    leaves_ok = leaf_obligations(run, props=props) if leaves else True
     text, problems, summary = translate()
     run.oblige("routast:translate composite routine classes (ast of unmarshals/routines.py and marshals/routines.py -> "
                "routine programs; __init__ and __call__ of every class inside the fragment, live classes are the "
@@ -1049,7 +1480,7 @@ def obligations(run: lib.Run, props: bool = True) -> bool:
         "(unguarded RA_unm_iterable / RA_unm_mapping / RA_mar_mapping); the earlier convert-then-hash formulation is "
         "Model/CoreLate.v (RA_*_late_outside, Props/CoreHash.v: exact region of difference)",
     ]
-    return ok and not problems
+    return ok and not problems and leaves_ok
 
 
 if __name__ == "__main__":
@@ -1068,6 +1499,8 @@ if __name__ == "__main__":
         obligations(run)
     bad = [o for o in run.obligations if not o["ok"]]
     print(json.dumps({"obligations": len(run.obligations), "failed": [(o["name"], o["detail"]) for o in bad],
-                      "programs": run.extra_cov.get("routine_programs"), "seconds": round(__import__("time").time() - run.t0, 1)},
+                      "programs": run.extra_cov.get("routine_programs"),
+                      "leaf_classes": {k: sorted(v) for k, v in (run.extra_cov.get("routine_leaf_programs") or {}).items()},
+                      "seconds": round(__import__("time").time() - run.t0, 1)},
                      indent=1))
     sys.exit(1 if bad else 0)
